@@ -342,6 +342,7 @@ fn minimise_c18(rf: &ReplayFile, max_execs: u64) -> ReplayFile {
         scenario: Some(sc),
         sched: Some(SchedSpec::List { choices }),
         aisle: None,
+        depth: None,
         violations: viol.into_iter().filter(|v| v.class == rf.class).take(3).collect(),
         minimised: true,
         notes,
@@ -463,10 +464,76 @@ fn minimise_c11(rf: &ReplayFile) -> ReplayFile {
         scenario: None,
         sched: None,
         aisle: Some(sc),
+        depth: None,
         violations: viol.into_iter().filter(|v| v.class == class).take(3).collect(),
         minimised: true,
         notes,
     }
+}
+
+/// A chain of nested parses: the smallest depth that still differs (bisection - a threshold on the
+/// number of parses in progress is monotone in practice; the result is re-checked), then the
+/// simplest texts and configuration that keep the class.
+fn minimise_depth(rf: &ReplayFile) -> ReplayFile {
+    let mut best = rf.depth.clone().unwrap();
+    let class = rf.class.clone();
+    let fails = |dc: &c18::DepthCase| c18::run_depth_case(dc).0.iter().any(|v| v.class == class);
+    let mut execs = 0;
+    // simpler texts first (they make every later test cheaper)
+    let cands_outer = [">> a: b\nmix @@x{}\n".to_string(), ">> a: b\n".to_string()];
+    let cands_target = ["x".to_string(), "@a{1}".to_string()];
+    for t in &cands_target {
+        let mut c = best.clone();
+        c.target = t.clone();
+        execs += 1;
+        if fails(&c) {
+            best = c;
+            break;
+        }
+    }
+    for o in &cands_outer {
+        let mut c = best.clone();
+        c.outer = o.clone();
+        execs += 1;
+        if fails(&c) {
+            best = c;
+            break;
+        }
+    }
+    for cfg in [crate::scenario::ParserCfg { ext_bits: 0, converter: "empty".into() }, crate::scenario::ParserCfg { ext_bits: crate::scenario::EXT_ALL, converter: "empty".into() }] {
+        let mut c = best.clone();
+        c.cfg = cfg;
+        execs += 1;
+        if fails(&c) {
+            best = c;
+            break;
+        }
+    }
+    let (mut lo, mut hi) = (0u32, best.depth); // fails at hi
+    while hi - lo > 1 {
+        let mid = lo + (hi - lo) / 2;
+        let mut c = best.clone();
+        c.depth = mid;
+        execs += 1;
+        if fails(&c) {
+            hi = mid;
+        } else {
+            lo = mid;
+        }
+    }
+    let mut c = best.clone();
+    c.depth = hi;
+    let (v, _) = c18::run_depth_case(&c);
+    let mut out = rf.clone();
+    if v.iter().any(|x| x.class == class) {
+        out.depth = Some(c);
+        out.violations = v;
+        out.minimised = true;
+        out.notes.push(format!("minimised in {execs} executions: smallest failing depth {hi}"));
+    } else {
+        out.notes.push("minimiser: the bisected depth does not reproduce; left unchanged".into());
+    }
+    out
 }
 
 pub fn run(a: &Args) -> i32 {
@@ -477,6 +544,8 @@ pub fn run(a: &Args) -> i32 {
     let rf: ReplayFile = serde_json::from_str(&text).unwrap_or_else(|e| die(&format!("{path}: {e}")));
     let min = if rf.property == "C11" {
         minimise_c11(&rf)
+    } else if rf.depth.is_some() {
+        minimise_depth(&rf)
     } else if rf.scenario.is_some() {
         // (a history-dependence found by the second reference pass is self-contained; one found
         // through the per-process table is not, and then the minimiser leaves the file unchanged)
